@@ -40,6 +40,10 @@ def main():
                 cur = load_ops(f) if os.path.exists(f) else []
                 same = json.dumps(cur, sort_keys=True) == json.dumps(v, sort_keys=True)
                 print('overlay %s: %d ops (shared, not saved; %s)' % (k, len(v), 'identical to the committed one' if same else 'DIFFERS from the committed one - refresh the annot from gen'))
+    elif cmd == 'refresh':
+        g = generate(u)
+        open(os.path.join(WORK, name + '.annot.rs'), 'w').write(g['text'])
+        print('annot refreshed from raw + committed overlay (%d lines)' % g['text'].count('\n'))
     elif cmd in ('gen', 'verus'):
         g = generate(u)
         path = os.path.join(WORK, name + '_gen.rs')
